@@ -1073,4 +1073,321 @@ theorem refError_iff :
     · exact ⟨q, hq, imp, hi, Or.inl h⟩
     · exact ⟨q, hq, imp, hi, Or.inr ⟨ds, n, h1, h2, h3⟩⟩
 
+/-! ### merging of import lines (`resolve_operation_extensions`) keeps what is requested -/
+
+/-- what a raw line asks for -/
+def RawRequests (ts : List RawTarget) (n : Nat) : Prop := RawTarget.wildcard ∈ ts ∨ RawTarget.name n ∈ ts
+
+theorem requests_specific_snoc (ids : List Ident) (id : Ident) (n : Nat) :
+    Requests (.specific (ids ++ [id])) n ↔ Requests (.specific ids) n ∨ id.name = n := by
+  simp only [Requests, List.mem_append, List.mem_singleton]
+  constructor
+  · rintro ⟨x, hx | rfl, h⟩
+    · exact Or.inl ⟨x, hx, h⟩
+    · exact Or.inr h
+  · rintro (⟨x, hx, h⟩ | h)
+    · exact ⟨x, Or.inl hx, h⟩
+    · exact ⟨id, Or.inr rfl, h⟩
+
+theorem foldTargets_sem (line : Nat) (ts : List RawTarget) : ∀ (t : Targets) (i : Nat) (t' : Targets),
+    foldTargets line t i ts = .ok t' →
+    (∀ n, Requests t' n ↔ Requests t n ∨ RawRequests ts n) ∧
+    (∀ n, n ∈ namesOf t' ↔ n ∈ namesOf t ∨ RawTarget.name n ∈ ts) := by
+  induction ts with
+  | nil =>
+    intro t i t' h
+    simp only [foldTargets] at h
+    injection h with h
+    subst h
+    simp [RawRequests]
+  | cons a ts ih =>
+    intro t i t' h
+    cases t with
+    | wildcard => cases a <;> simp [foldTargets] at h
+    | specific ids =>
+      cases a with
+      | wildcard =>
+        simp only [foldTargets] at h
+        by_cases he : ids.isEmpty = true
+        · simp only [he, if_true] at h
+          obtain ⟨h1, h2⟩ := ih _ _ _ h
+          have hids : ids = [] := List.isEmpty_iff.mp he
+          subst hids
+          refine ⟨fun n => ?_, fun n => ?_⟩
+          · rw [h1]; simp [Requests, RawRequests]
+          · rw [h2]; simp [namesOf]
+        · simp [he] at h
+      | name m =>
+        simp only [foldTargets] at h
+        obtain ⟨h1, h2⟩ := ih _ _ _ h
+        refine ⟨fun n => ?_, fun n => ?_⟩
+        · rw [h1, requests_specific_snoc]
+          simp only [RawRequests, List.mem_cons, RawTarget.name.injEq, reduceCtorEq, false_or]
+          constructor
+          · rintro ((h | h) | h | h)
+            · exact Or.inl h
+            · exact Or.inr (Or.inr (Or.inl h.symm))
+            · exact Or.inr (Or.inl h)
+            · exact Or.inr (Or.inr (Or.inr h))
+          · rintro (h | h | h | h)
+            · exact Or.inl (Or.inl h)
+            · exact Or.inr (Or.inl h)
+            · exact Or.inl (Or.inr h.symm)
+            · exact Or.inr (Or.inr h)
+        · rw [h2]
+          simp only [namesOf, List.map_append, List.map_cons, List.map_nil, List.mem_append,
+            List.mem_cons, RawTarget.name.injEq, List.not_mem_nil, or_false]
+          constructor
+          · rintro ((h | h) | h)
+            · exact Or.inl h
+            · exact Or.inr (Or.inl h)
+            · exact Or.inr (Or.inr h)
+          · rintro (h | h | h)
+            · exact Or.inl (Or.inl h)
+            · exact Or.inl (Or.inr h)
+            · exact Or.inr h
+
+/-- the three views of an import list the specification depends on -/
+structure SameRequests (A : List (Import ρ)) (P1 : ρ → Prop) (P2 P3 : ρ → Nat → Prop) : Prop where
+  rel : ∀ r, (∃ e ∈ A, e.rel = r) ↔ P1 r
+  req : ∀ r n, (∃ e ∈ A, e.rel = r ∧ Requests e.targets n) ↔ P2 r n
+  names : ∀ r n, (∃ e ∈ A, e.rel = r ∧ n ∈ namesOf e.targets) ↔ P3 r n
+
+omit [DecidableEq κ] in
+theorem exists_mem_eraseP_or {A : List (Import ρ)} {r0 : ρ} {e0 : Import ρ}
+    (hf : A.find? (fun i => decide (i.rel = r0)) = some e0) (Q : Import ρ → Prop) :
+    (∃ e ∈ A, Q e) ↔ Q e0 ∨ ∃ e ∈ A.eraseP (fun i => decide (i.rel = r0)), Q e := by
+  induction A with
+  | nil => simp at hf
+  | cons a A ih =>
+    by_cases ha : a.rel = r0
+    · have : (a :: A).find? (fun i => decide (i.rel = r0)) = some a := by simp [List.find?_cons, ha]
+      rw [this] at hf
+      injection hf with hf
+      subst hf
+      simp [List.eraseP_cons, ha]
+    · have hfa : A.find? (fun i => decide (i.rel = r0)) = some e0 := by
+        simpa [List.find?_cons, ha] using hf
+      have := ih hfa
+      simp only [List.eraseP_cons, ha, decide_false, cond_false, List.mem_cons, exists_eq_or_imp]
+      rw [this]
+      constructor
+      · rintro (h | h | h)
+        · exact Or.inr (Or.inl h)
+        · exact Or.inl h
+        · exact Or.inr (Or.inr h)
+      · rintro (h | h | h)
+        · exact Or.inr (Or.inl h)
+        · exact Or.inl h
+        · exact Or.inr (Or.inr h)
+
+omit [DecidableEq κ] in
+theorem eraseP_of_find_none {A : List (Import ρ)} {r0 : ρ}
+    (hf : A.find? (fun i => decide (i.rel = r0)) = none) : A.eraseP (fun i => decide (i.rel = r0)) = A := by
+  induction A with
+  | nil => rfl
+  | cons a A ih =>
+    by_cases ha : a.rel = r0
+    · simp [List.find?_cons, ha] at hf
+    · have hfa : A.find? (fun i => decide (i.rel = r0)) = none := by simpa [List.find?_cons, ha] using hf
+      simp [List.eraseP_cons, ha, ih hfa]
+
+omit [DecidableEq κ] in
+theorem extStep_sem {acc acc' : List (Import ρ)} {line : Nat} {raw : RawImport ρ}
+    (h : extStep acc line raw = .ok acc') :
+    (∀ r, (∃ e ∈ acc', e.rel = r) ↔ (∃ e ∈ acc, e.rel = r) ∨ r = raw.rel) ∧
+    (∀ r n, (∃ e ∈ acc', e.rel = r ∧ Requests e.targets n) ↔
+      (∃ e ∈ acc, e.rel = r ∧ Requests e.targets n) ∨ (r = raw.rel ∧ RawRequests raw.targets n)) ∧
+    (∀ r n, (∃ e ∈ acc', e.rel = r ∧ n ∈ namesOf e.targets) ↔
+      (∃ e ∈ acc, e.rel = r ∧ n ∈ namesOf e.targets) ∨ (r = raw.rel ∧ RawTarget.name n ∈ raw.targets)) := by
+  unfold extStep at h
+  cases hf : acc.find? (fun i => decide (i.rel = raw.rel)) with
+  | none =>
+    simp only [hf] at h
+    cases hfold : foldTargets line (.specific []) 0 raw.targets with
+    | error e => simp [hfold] at h
+    | ok t =>
+      simp only [hfold] at h
+      injection h with h
+      rw [eraseP_of_find_none hf] at h
+      subst h
+      obtain ⟨h1, h2⟩ := foldTargets_sem line raw.targets _ _ _ hfold
+      refine ⟨fun r => ?_, fun r n => ?_, fun r n => ?_⟩
+      · simp only [List.mem_append, List.mem_singleton]
+        constructor
+        · rintro ⟨e, he | rfl, rfl⟩
+          · exact Or.inl ⟨e, he, rfl⟩
+          · exact Or.inr rfl
+        · rintro (⟨e, he, rfl⟩ | rfl)
+          · exact ⟨e, Or.inl he, rfl⟩
+          · exact ⟨_, Or.inr rfl, rfl⟩
+      · simp only [List.mem_append, List.mem_singleton]
+        constructor
+        · rintro ⟨e, he | rfl, rfl, hr⟩
+          · exact Or.inl ⟨e, he, rfl, hr⟩
+          · right
+            refine ⟨rfl, ?_⟩
+            rcases (h1 n).mp hr with h | h
+            · simp [Requests] at h
+            · exact h
+        · rintro (⟨e, he, rfl, hr⟩ | ⟨rfl, hr⟩)
+          · exact ⟨e, Or.inl he, rfl, hr⟩
+          · exact ⟨_, Or.inr rfl, rfl, (h1 n).mpr (Or.inr hr)⟩
+      · simp only [List.mem_append, List.mem_singleton]
+        constructor
+        · rintro ⟨e, he | rfl, rfl, hr⟩
+          · exact Or.inl ⟨e, he, rfl, hr⟩
+          · right
+            refine ⟨rfl, ?_⟩
+            rcases (h2 n).mp hr with h | h
+            · simp [namesOf] at h
+            · exact h
+        · rintro (⟨e, he, rfl, hr⟩ | ⟨rfl, hr⟩)
+          · exact ⟨e, Or.inl he, rfl, hr⟩
+          · exact ⟨_, Or.inr rfl, rfl, (h2 n).mpr (Or.inr hr)⟩
+  | some e0 =>
+    simp only [hf] at h
+    have he0 : e0.rel = raw.rel := by simpa using List.find?_some hf
+    cases hfold : foldTargets line e0.targets 0 raw.targets with
+    | error e => simp [hfold] at h
+    | ok t =>
+      simp only [hfold] at h
+      injection h with h
+      subst h
+      obtain ⟨h1, h2⟩ := foldTargets_sem line raw.targets _ _ _ hfold
+      refine ⟨fun r => ?_, fun r n => ?_, fun r n => ?_⟩
+      · rw [exists_mem_eraseP_or hf (fun e => e.rel = r)]
+        simp only [List.mem_append, List.mem_singleton]
+        constructor
+        · rintro ⟨e, he | rfl, rfl⟩
+          · exact Or.inl (Or.inr ⟨e, he, rfl⟩)
+          · exact Or.inr rfl
+        · rintro ((h | ⟨e, he, rfl⟩) | rfl)
+          · exact ⟨_, Or.inr rfl, by rw [← h, he0]⟩
+          · exact ⟨e, Or.inl he, rfl⟩
+          · exact ⟨_, Or.inr rfl, rfl⟩
+      · rw [exists_mem_eraseP_or hf (fun e => e.rel = r ∧ Requests e.targets n)]
+        simp only [List.mem_append, List.mem_singleton]
+        constructor
+        · rintro ⟨e, he | rfl, rfl, hr⟩
+          · exact Or.inl (Or.inr ⟨e, he, rfl, hr⟩)
+          · rcases (h1 n).mp hr with h | h
+            · exact Or.inl (Or.inl ⟨he0, h⟩)
+            · exact Or.inr ⟨rfl, h⟩
+        · rintro ((⟨hr0, hr⟩ | ⟨e, he, rfl, hr⟩) | ⟨rfl, hr⟩)
+          · exact ⟨_, Or.inr rfl, by rw [← hr0, he0], (h1 n).mpr (Or.inl hr)⟩
+          · exact ⟨e, Or.inl he, rfl, hr⟩
+          · exact ⟨_, Or.inr rfl, rfl, (h1 n).mpr (Or.inr hr)⟩
+      · rw [exists_mem_eraseP_or hf (fun e => e.rel = r ∧ n ∈ namesOf e.targets)]
+        simp only [List.mem_append, List.mem_singleton]
+        constructor
+        · rintro ⟨e, he | rfl, rfl, hr⟩
+          · exact Or.inl (Or.inr ⟨e, he, rfl, hr⟩)
+          · rcases (h2 n).mp hr with h | h
+            · exact Or.inl (Or.inl ⟨he0, h⟩)
+            · exact Or.inr ⟨rfl, h⟩
+        · rintro ((⟨hr0, hr⟩ | ⟨e, he, rfl, hr⟩) | ⟨rfl, hr⟩)
+          · exact ⟨_, Or.inr rfl, by rw [← hr0, he0], (h2 n).mpr (Or.inl hr)⟩
+          · exact ⟨e, Or.inl he, rfl, hr⟩
+          · exact ⟨_, Or.inr rfl, rfl, (h2 n).mpr (Or.inr hr)⟩
+
+omit [DecidableEq κ] in
+theorem extLoop_sem (lines : List (RawImport ρ)) : ∀ (acc : List (Import ρ)) (k : Nat) (imps : List (Import ρ)),
+    extLoop acc k lines = .ok imps →
+    (∀ r, (∃ e ∈ imps, e.rel = r) ↔ (∃ e ∈ acc, e.rel = r) ∨ ∃ l ∈ lines, l.rel = r) ∧
+    (∀ r n, (∃ e ∈ imps, e.rel = r ∧ Requests e.targets n) ↔
+      (∃ e ∈ acc, e.rel = r ∧ Requests e.targets n) ∨ ∃ l ∈ lines, l.rel = r ∧ RawRequests l.targets n) ∧
+    (∀ r n, (∃ e ∈ imps, e.rel = r ∧ n ∈ namesOf e.targets) ↔
+      (∃ e ∈ acc, e.rel = r ∧ n ∈ namesOf e.targets) ∨ ∃ l ∈ lines, l.rel = r ∧ RawTarget.name n ∈ l.targets) := by
+  induction lines with
+  | nil =>
+    intro acc k imps h
+    simp only [extLoop] at h
+    injection h with h
+    subst h
+    simp
+  | cons l lines ih =>
+    intro acc k imps h
+    simp only [extLoop] at h
+    cases hs : extStep acc k l with
+    | error e => simp [hs] at h
+    | ok acc' =>
+      simp only [hs] at h
+      obtain ⟨a1, a2, a3⟩ := extStep_sem hs
+      obtain ⟨b1, b2, b3⟩ := ih _ _ _ h
+      refine ⟨fun r => ?_, fun r n => ?_, fun r n => ?_⟩
+      · rw [b1, a1]
+        simp only [List.mem_cons, exists_eq_or_imp]
+        constructor
+        · rintro ((h | h) | h)
+          · exact Or.inl h
+          · exact Or.inr (Or.inl h.symm)
+          · exact Or.inr (Or.inr h)
+        · rintro (h | h | h)
+          · exact Or.inl (Or.inl h)
+          · exact Or.inl (Or.inr h.symm)
+          · exact Or.inr h
+      · rw [b2, a2]
+        simp only [List.mem_cons, exists_eq_or_imp]
+        constructor
+        · rintro ((h | ⟨h1, h2⟩) | h)
+          · exact Or.inl h
+          · exact Or.inr (Or.inl ⟨h1.symm, h2⟩)
+          · exact Or.inr (Or.inr h)
+        · rintro (h | ⟨h1, h2⟩ | h)
+          · exact Or.inl (Or.inl h)
+          · exact Or.inl (Or.inr ⟨h1.symm, h2⟩)
+          · exact Or.inr h
+      · rw [b3, a3]
+        simp only [List.mem_cons, exists_eq_or_imp]
+        constructor
+        · rintro ((h | ⟨h1, h2⟩) | h)
+          · exact Or.inl h
+          · exact Or.inr (Or.inl ⟨h1.symm, h2⟩)
+          · exact Or.inr (Or.inr h)
+        · rintro (h | ⟨h1, h2⟩ | h)
+          · exact Or.inl (Or.inl h)
+          · exact Or.inl (Or.inr ⟨h1.symm, h2⟩)
+          · exact Or.inr h
+
+/-! ### the specification depends on an import list only through three views -/
+
+section views
+variable {fs} {rootFile} {fs' : FS κ ρ} {rootFile' : File ρ}
+variable (hd : ∀ p, defsAt fs p = defsAt fs' p)
+variable (h1 : ∀ q r, (∃ imp ∈ importsOf fs root rootFile q, imp.rel = r) →
+  ∃ imp ∈ importsOf fs' root rootFile' q, imp.rel = r)
+variable (h2 : ∀ q r n, (∃ imp ∈ importsOf fs root rootFile q, imp.rel = r ∧ Requests imp.targets n) →
+  ∃ imp ∈ importsOf fs' root rootFile' q, imp.rel = r ∧ Requests imp.targets n)
+variable (h3 : ∀ q r n, (∃ imp ∈ importsOf fs root rootFile q, imp.rel = r ∧ n ∈ namesOf imp.targets) →
+  ∃ imp ∈ importsOf fs' root rootFile' q, imp.rel = r ∧ n ∈ namesOf imp.targets)
+include hd h1
+
+theorem reach_views {q : κ} (h : Reach res fs root rootFile q) : Reach res fs' root rootFile' q := by
+  induction h with
+  | root => exact Reach.root
+  | @step q imp _ himp hsome ih =>
+    obtain ⟨imp', hi', hr⟩ := h1 q imp.rel ⟨imp, himp, rfl⟩
+    rw [← hr]
+    exact Reach.step ih hi' (by rw [hr, ← hd]; exact hsome)
+
+theorem dangling_views (h : Dangling res fs root rootFile) : Dangling res fs' root rootFile' := by
+  obtain ⟨q, imp, a1, a2, a3⟩ := h
+  obtain ⟨imp', hi', hr⟩ := h1 q imp.rel ⟨imp, a2, rfl⟩
+  exact ⟨q, imp', reach_views res root hd h1 a1, hi', by rw [hr, ← hd]; exact a3⟩
+
+include h2 in
+theorem selected_views {x : DefId κ} (h : Selected res fs root rootFile x) : Selected res fs' root rootFile' x := by
+  obtain ⟨q, imp, ds, n, a1, a2, a3, a4, a5, a6⟩ := h
+  obtain ⟨imp', hi', hr, hreq⟩ := h2 q imp.rel n ⟨imp, a2, rfl, a6⟩
+  exact ⟨q, imp', ds, n, reach_views res root hd h1 a1, hi', by rw [hr]; exact a3, by rw [← hd]; exact a4, a5, hreq⟩
+
+include h3 in
+theorem missing_views (h : MissingName res fs root rootFile) : MissingName res fs' root rootFile' := by
+  obtain ⟨q, imp, ds, n, a1, a2, a3, a4, a5⟩ := h
+  obtain ⟨imp', hi', hr, hn⟩ := h3 q imp.rel n ⟨imp, a2, rfl, a4⟩
+  exact ⟨q, imp', ds, n, reach_views res root hd h1 a1, hi', by rw [hr, ← hd]; exact a3, hn, a5⟩
+
+end views
+
 end NitroVerif.Imports
